@@ -580,6 +580,14 @@ def gen_views(rng, profile):
         script = [["l.new", 0, [[key, None]], "boom"], ["l.it.new", 0, 0]] + [["l.it.next", 0] for _ in range(rng.randint(3, 7))]
         if rng.random() < 0.5:
             script.insert(rng.randint(2, len(script)), rng.choice([["l.append", 0, ["new", "z"]], ["l.del", 0, 0], ["l.iter", 0]]))
+    if profile == "listview" and isinstance(doc, dict) and not script and rng.random() < 0.12:
+        # values that are == without being the same JSON value, filtered by predicates that tell them apart:
+        # a kept entry following a removed one that equals it must still end up in the removed one's place
+        key = rng.choice(gen.KEYS)
+        base = rng.choice([[0, False], [False, 0], [1, True, 1.0], [True, 1], [0.0, 0, False, 1, True], [1.0, 1, 0, False]])
+        doc[key] = base + [rng.choice([0, False, 0.0, 1, True, 1.0]) for _ in range(rng.randint(0, 3))]
+        script = [["l.new", 0, [[key, None]], "id"], [rng.choice(["l.keep", "l.remove"]), 0, rng.choice(["is_bool", "is_int", "is_float"])],
+                  ["l.iter", 0], [rng.choice(["l.keep", "l.remove"]), 0, rng.choice(["is_bool", "is_int", "is_float", "truthy"])], ["l.len", 0]]
     sc = {"fam": "m", "doc": enc(doc), "ops": []}
     live, its = set(), set()
     if script:
